@@ -138,6 +138,8 @@ class Engine:
         self.on_call = None  # hook(eng, st, frame, f, args, site) -> outcomes or None
         self.trace = False
         self.key_all = False  # full path sensitivity (small functions only)
+        self.merge_returns = False  # join the partitions created inside an inlined callee at its return (per returned variant)
+        self.keep_key = None  # callable(key item) -> bool: partition items that survive a callee's return under merge_returns
         self.keyed_events = set()
         self.counters = set()  # loop-head phi symbols that are loop counters (counter axiom)
         self.sym_terms = {}  # sym -> term description (div/mod/mul/cast provenance) for TERM rules
@@ -207,6 +209,7 @@ class Engine:
         self.fid += 1
         fr = Frame(body, "f%d" % self.fid, sub, depth, parent, site)
         self.analysed.add(body["path"])
+        entry_keylen = len(st0.key)
         st = st0.fork() if parent is None else st0
         for i, v in enumerate(args):
             st.locs[(fr.fid, i + 1)] = v
@@ -281,6 +284,8 @@ class Engine:
                         j.key = ns.key
                         d[ns.key] = j
                     heapq.heappush(heap, (fr.rpo_index.get(tb, 1 << 30), tb))
+        if self.merge_returns and parent is not None and len(results) > 1:
+            results = self._merge_results(results, fr, len(st0.key) if entry_keylen is None else entry_keylen)
         out = []
         for key, (s, rv) in results.items():
             # drop the frame's locals
@@ -302,6 +307,30 @@ class Engine:
             j.key = ns.key
             r = j.locs.pop((fr.fid, "ret"))
             results[ns.key] = (j, r)
+
+    def _merge_results(self, results, fr, base):
+        """Partitions created inside an inlined callee do not survive its return: exits are joined per
+        (caller partition, returned variant)."""
+        merged = {}
+        for key, (s, rv) in results.items():
+            lab = None
+            if isinstance(rv, Enum) and len(rv.variants) == 1:
+                lab = rv.variants[0][0]
+            kept = tuple(x for x in key[base:] if self.keep_key(x)) if self.keep_key is not None else ()
+            k2 = key[:base] + kept + ((("ret", fr.path.split("::")[-1], lab),) if lab is not None else ())
+            s.key = k2
+            ex = merged.get(k2)
+            if ex is None:
+                merged[k2] = (s, rv)
+            else:
+                s0, r0 = ex
+                s.locs[(fr.fid, "ret")] = rv
+                s0.locs[(fr.fid, "ret")] = r0
+                j = self.M.join_states(s0, s, "%s:ret" % fr.fid)
+                j.key = k2
+                r = j.locs.pop((fr.fid, "ret"))
+                merged[k2] = (j, r)
+        return merged
 
     def _same_state(self, a, b):
         if a.facts != b.facts:
